@@ -65,9 +65,8 @@ Proof. unfold clamp_pl. lia. Qed.
 
 Lemma lor2_byte v : byte_z v -> 0 <= Z.lor v 2 <= 255.
 Proof.
-  intros [H1 H2].
-  pose proof (sweepZ (fun v => (0 <=? Z.lor v 2) && (Z.lor v 2 <=? 255)) 256 ltac:(vm_compute; reflexivity) v ltac:(lia)) as H.
-  apply andb_true_iff in H. destruct H as [Ha Hb]. apply Z.leb_le in Ha. apply Z.leb_le in Hb. lia.
+  intros H. apply range_of_bool.
+  exact (sweep_byte (fun v => (0 <=? Z.lor v 2) && (Z.lor v 2 <=? 255)) ltac:(vm_compute; reflexivity) v H).
 Qed.
 
 (* what __enter__ leaves in the radio: a function of the object's attributes only *)
